@@ -415,6 +415,32 @@ def match_known(known: list[dict[str, Any]], sig: str, case: Any) -> dict[str, A
 # main entry
 
 
+_SURR = re.compile("[\ud800-\udfff]")
+
+
+def enc_case(o: Any) -> Any:
+    """JSON cannot keep a high surrogate followed by a low one apart from the character they would denote as a UTF-16
+    pair: strings holding surrogate code points are stored as UTF-16 code units in hex."""
+    if isinstance(o, str):
+        return {"__utf16le_hex__": o.encode("utf-16-le", "surrogatepass").hex()} if _SURR.search(o) else o
+    if isinstance(o, list):
+        return [enc_case(x) for x in o]
+    if isinstance(o, dict):
+        return {k: enc_case(v) for k, v in o.items()}
+    return o
+
+
+def dec_case(o: Any) -> Any:
+    if isinstance(o, dict):
+        if set(o) == {"__utf16le_hex__"}:
+            b = bytes.fromhex(o["__utf16le_hex__"])
+            return "".join(chr(int.from_bytes(b[i : i + 2], "little")) for i in range(0, len(b), 2))
+        return {k: dec_case(v) for k, v in o.items()}
+    if isinstance(o, list):
+        return [dec_case(x) for x in o]
+    return o
+
+
 def write_replay(mod, sig: str, detail: str, case: Any, tier: str, seed: int) -> str:
     d = os.path.join(boot.VERIF, "replays")
     os.makedirs(d, exist_ok=True)
@@ -422,7 +448,7 @@ def write_replay(mod, sig: str, detail: str, case: Any, tier: str, seed: int) ->
     path = os.path.join(d, f"{mod.ID}-{h}.json")
     with open(path, "w", encoding="utf-8") as f:
         json.dump(
-            {"property": mod.ID, "signature": sig, "detail": detail, "case": case, "tier": tier, "seed": seed},
+            {"property": mod.ID, "signature": sig, "detail": detail, "case": enc_case(case), "tier": tier, "seed": seed},
             f, ensure_ascii=True, indent=1, default=repr,
         )
     return os.path.relpath(path, boot.VERIF)
@@ -435,7 +461,7 @@ def regressions(mod) -> list[Any]:
         for fn in sorted(os.listdir(d)):
             if fn.endswith(".json"):
                 data = json.load(open(os.path.join(d, fn), encoding="utf-8"))
-                out.append(data["case"] if isinstance(data, dict) and "case" in data else data)
+                out.append(dec_case(data["case"] if isinstance(data, dict) and "case" in data else data))
     return out
 
 
@@ -569,7 +595,7 @@ def replay(modname: str, path: str) -> int:
     mod = importlib.import_module(modname)
     _install_alarm()
     data = json.load(open(path, encoding="utf-8"))
-    case = data["case"] if isinstance(data, dict) and "case" in data else data
+    case = dec_case(data["case"] if isinstance(data, dict) and "case" in data else data)
     known = load_known(mod.ID)
     try:
         res = mod.check(case)
